@@ -389,6 +389,9 @@ func genSpec(r *hlib.Rand, seed uint64, idx, steps int, focus string) Spec {
 		g.add(Op{K: "update", Chain: 0, Peer: 1, Relayer: 0, Commit: true})
 		g.add(Op{K: "ack", Chain: 0, Ack: 0, Relayer: 0, FreshProof: false, Commit: true})
 		g.add(Op{K: "recv_tss", Chain: 0, Variant: "copy", Pkt: 0, Relayer: 0, Commit: true})
+		// another packet's fee waits in the packet contract: the replayed acknowledgement is ACCEPTED and the
+		// fee of packet 1 is paid a second time out of it (without it sendPacketFeeToRelayer reverts for lack of funds)
+		g.add(Op{K: "send", Chain: 0, Dst: 1, Variant: "erc20", Amount: 50, Fee: 5, Commit: true})
 		g.add(Op{K: "ack", Chain: 0, Ack: 0, Relayer: 0, FreshProof: true, Commit: true})
 		g.add(Op{K: "ack", Chain: 0, Ack: 0, Relayer: 0, FreshProof: true, Commit: true})
 	case idx == 1 && focus == "c04":
